@@ -1,0 +1,28 @@
+//go:build verif
+
+// Contracts for the gvc verifier (see /verif/DESIGN.md). Comment-only file: it adds no code.
+package big
+
+//@ # ---- text codecs of big integers (C18): negative integers are refused, decoded integers are non-negative ----
+
+//@ func (*Int).MarshalText
+//@   property C18
+//@   safety
+//@   requires i != nil
+//@   ensures refuse: val(i) < 0 ==> err != nil && result0 == nil
+//@   ensures accept: val(i) >= 0 ==> err == nil && result0 != nil
+//@   mustfail canary: err != nil
+
+//@ func (*Int).UnmarshalJSON
+//@   property C18 C08
+//@   safety
+//@   requires i != nil && len(b) >= 1 && (b[0] == 34 ==> len(b) >= 2)
+//@   ensures nonneg: err == nil ==> val(i) >= 0
+//@   mustfail canary: err != nil
+
+//@ func (*Int).UnmarshalXML
+//@   property C18
+//@   safety
+//@   requires i != nil && d != nil
+//@   ensures nonneg: err == nil ==> val(i) >= 0
+//@   mustfail canary: err != nil
